@@ -32,12 +32,26 @@ type World struct {
 	cgVTA *callgraph.Graph
 
 	allFuncs map[*ssa.Function]bool
+
+	// Dead: full names of helpers that the normalisation pass (norm.go) inlined everywhere; they
+	// are no longer part of the program that runs and are skipped by ModuleFuncs.
+	Dead    map[string]bool
+	NormLog []string
 }
 
 // LoadWorld loads every package of the module from the working tree at repo,
 // type-checks from source and builds SSA for the whole program.  Any load or
 // type error is fatal: the checker never gives a verdict on a partial program.
 func LoadWorld(repo string, overlay map[string][]byte) (*World, error) {
+	pkgs, err := loadPkgs(repo, overlay)
+	if err != nil {
+		return nil, err
+	}
+	return buildWorld(repo, pkgs)
+}
+
+// loadPkgs loads and type-checks every package of the module (and its dependencies) from source.
+func loadPkgs(repo string, overlay map[string][]byte) ([]*packages.Package, error) {
 	cfg := &packages.Config{
 		Mode:    packages.LoadAllSyntax,
 		Dir:     repo,
@@ -65,10 +79,14 @@ func LoadWorld(repo string, overlay map[string][]byte) (*World, error) {
 	if nerr > 0 {
 		return nil, fmt.Errorf("%d load/type errors, first: %s", nerr, first)
 	}
+	return pkgs, nil
+}
+
+func buildWorld(repo string, pkgs []*packages.Package) (*World, error) {
 	prog, _ := ssautil.AllPackages(pkgs, ssa.InstantiateGenerics)
 	prog.Build()
 	w := &World{Repo: repo, Pkgs: pkgs, Prog: prog, Fset: prog.Fset,
-		ByPath: map[string]*packages.Package{}, SSAPkgs: map[string]*ssa.Package{}}
+		ByPath: map[string]*packages.Package{}, SSAPkgs: map[string]*ssa.Package{}, Dead: map[string]bool{}}
 	for _, p := range pkgs {
 		w.ByPath[p.PkgPath] = p
 	}
@@ -192,7 +210,7 @@ func (w *World) ModuleFuncs() []*ssa.Function {
 		if fn.Blocks == nil || fn.Synthetic != "" && fn.Parent() == nil && fn.Origin() == nil {
 			continue
 		}
-		if IsModule(fn) {
+		if IsModule(fn) && !w.isDead(fn) {
 			out = append(out, fn)
 		}
 	}
@@ -260,4 +278,17 @@ func fnPkgPath(fn *ssa.Function) string {
 		}
 	}
 	return ""
+}
+
+// isDead: fn is (a closure of) a helper that the normalisation pass inlined at every use.
+func (w *World) isDead(fn *ssa.Function) bool {
+	if len(w.Dead) == 0 {
+		return false
+	}
+	for f := fn; f != nil; f = f.Parent() {
+		if obj, ok := f.Object().(*types.Func); ok && w.Dead[obj.FullName()] {
+			return true
+		}
+	}
+	return false
 }
